@@ -120,27 +120,12 @@ func elemStruct(t types.Type) *types.Named {
 	return nil
 }
 
-func isSliceLike(t types.Type) bool {
-	switch t.Underlying().(type) {
-	case *types.Slice, *types.Array, *types.Map:
-		return true
-	}
-	return false
-}
-
-var validatorStructural = map[string]bool{"dive": true, "keys": true, "endkeys": true, "omitempty": true, "omitnil": true, "omitzero": true, "structonly": true, "nostructlevel": true, "-": true, "required": true}
-
-func checkC20(c *Ctx, r *Report) {
+// checkConfigDecodedAsRead: the configuration the generators see is the document on disk -
+// decoded from the bytes os.ReadFile returned, validated, and returned, one and the same value.
+func checkConfigDecodedAsRead(c *Ctx, r *Report, clause string) {
 	w := c.W
-	r.NotDecided = append(r.NotDecided, "what go-playground/validator does for each rule name (semantics of url/email/filepath/oneof)", "file-system effects (umask, existing files)", "the wording of the rejection message beyond 'it is built from FieldError.Field()'")
-	r.Assume = append(r.Assume, "validator descends into nested struct fields and into slice elements only under `dive` (validator v10 documentation)")
-
 	const load = "cmd.LoadGleeceConfig"
-	const gcm = "cmd.GetConfigAndMetadata"
-	// ---- C20.a validated before analysis
-	ruleMustCallOK(c, r, "C20.a", load, "github.com/titanous/json5.Unmarshal", -1, "LoadGleeceConfig succeeds only if the JSON5 document decoded")
-	ruleMustCallOK(c, r, "C20.a", load, "infrastructure/validation.ValidateStruct", -1, "LoadGleeceConfig succeeds only if the constraint validation passed")
-	if fi := need(c, r, "C20.a", load); fi != nil {
+	if fi := need(c, r, clause, load); fi != nil {
 		viol := ""
 		var sites []string
 		um := callsIn(fi.SSA, false, nameIs("github.com/titanous/json5.Unmarshal"))
@@ -174,9 +159,32 @@ func checkC20(c *Ctx, r *Report) {
 				viol = fmt.Sprintf("%s: the bytes decoded are not the bytes os.ReadFile returned but something computed from them (%s): string values of the document (info, servers, securitySchemes, paths) are then not honoured literally (e.g. os.ExpandEnv rewrites every `$name`)", w.pos(um[0].Pos()), sliceOf(um[0].Common().Args[0]))
 			}
 		}
-		o := r.add("C20.a", "fieldflow", load+":validated==decoded==returned", "the value validated is the value decoded and the value returned", []string{load}, sites, viol)
+		o := r.add(clause, "fieldflow", load+":validated==decoded==returned", "the value validated is the value decoded and the value returned", []string{load}, sites, viol)
 		o.NonTrivial = true
 	}
+}
+
+func isSliceLike(t types.Type) bool {
+	switch t.Underlying().(type) {
+	case *types.Slice, *types.Array, *types.Map:
+		return true
+	}
+	return false
+}
+
+var validatorStructural = map[string]bool{"dive": true, "keys": true, "endkeys": true, "omitempty": true, "omitnil": true, "omitzero": true, "structonly": true, "nostructlevel": true, "-": true, "required": true}
+
+func checkC20(c *Ctx, r *Report) {
+	w := c.W
+	r.NotDecided = append(r.NotDecided, "what go-playground/validator does for each rule name (semantics of url/email/filepath/oneof)", "file-system effects (umask, existing files)", "the wording of the rejection message beyond 'it is built from FieldError.Field()'")
+	r.Assume = append(r.Assume, "validator descends into nested struct fields and into slice elements only under `dive` (validator v10 documentation)")
+
+	const load = "cmd.LoadGleeceConfig"
+	const gcm = "cmd.GetConfigAndMetadata"
+	// ---- C20.a validated before analysis
+	ruleMustCallOK(c, r, "C20.a", load, "github.com/titanous/json5.Unmarshal", -1, "LoadGleeceConfig succeeds only if the JSON5 document decoded")
+	ruleMustCallOK(c, r, "C20.a", load, "infrastructure/validation.ValidateStruct", -1, "LoadGleeceConfig succeeds only if the constraint validation passed")
+	checkConfigDecodedAsRead(c, r, "C20.a")
 	if fi := need(c, r, "C20.a", "infrastructure/validation.ValidateStruct"); fi != nil {
 		viol := "ValidateStruct does not return the verdict of validator.Struct on its argument"
 		var sites []string
